@@ -89,12 +89,12 @@ def gen_description(rng):
         row = {'a': a, 'z': b, 'east': {'distance': round(rng.uniform(20, 120), 3),
                                         'fiber': rng.choice(['SSMF', 'NZDF', 'LOF']),
                                         'lineic': rng.choice([0.2, 0.21, 0.22, 0.19]),
-                                        'con_in': rng.choice([None, 0.5, 0.3]), 'con_out': rng.choice([None, 0.5, 0.4]),
+                                        'con_in': rng.choice([None, 0.5, 0.3, 0]), 'con_out': rng.choice([None, 0.5, 0.4, 0]),
                                         'pmd': rng.choice([None, None, 0.04, 0.1]), 'cable': f'F{k:03d}'}, 'west': {}}
         if rng.random() < 0.5:
             row['west'] = {'distance': round(rng.uniform(20, 120), 3), 'fiber': rng.choice(['SSMF', 'NZDF']),
-                           'lineic': rng.choice([0.2, 0.23, 0.25]), 'con_in': rng.choice([None, 0.2]),
-                           'con_out': rng.choice([None, 0.6]), 'pmd': rng.choice([None, 0.08]),
+                           'lineic': rng.choice([0.2, 0.23, 0.25]), 'con_in': rng.choice([None, 0.2, 0]),
+                           'con_out': rng.choice([None, 0.6, 0]), 'pmd': rng.choice([None, 0.08, 0]),
                            'cable': f'G{k:03d}'}
             if rng.random() < 0.5:
                 # partially filled west side: the rest defaults to east
@@ -499,6 +499,13 @@ def gen_services(rng, desc, types):
         rows[0]['disjoint'] = str(rows[1]['id'])
         if len(rows) >= 3 and rng.random() < 0.4:
             rows[0]['disjoint'] += f' | {rows[2]["id"]}'
+    if len(rows) >= 3 and rng.random() < 0.5:
+        # any row may name partners: chains (1 from 2, 2 from 3), mutual pairs (1 from 2, 2 from 1), rows that are
+        # already a member of an earlier row's group and open their own
+        for k in range(1, len(rows)):
+            if rng.random() < 0.4:
+                others = [r['id'] for j, r in enumerate(rows) if j != k]
+                rows[k]['disjoint'] = ' | '.join(str(x) for x in rng.sample(others, rng.randint(1, min(2, len(others)))))
     return rows
 
 
